@@ -72,6 +72,11 @@ PrunedOnOpen ==
   (IsView /\ S.ev = "reopen" /\ S.h >= 0) => \A k \in 1..Len(S.undo) : S.undo[k] >= S.h - T.limit + 1
 UndoAvailable ==
   (S.ev = "died" /\ S.why = "noundo") => (S.need > T.limit \/ S.shrunk \/ S.behind)
+(* C06: after a shutdown the stored height is the height in memory when the task returned, and   *)
+(* includes every block completed before the request (never more than it while undoing blocks) *)
+KeepsFinishedWork ==
+  (IsView /\ S.ev = "stopped") => /\ S.h = S.memend
+                                  /\ (IF S.inreorg THEN S.h <= S.memh ELSE S.h >= S.memh)
 (* C01 SpendResolves and the code's own assertions: the processing task only ever dies for  *)
 (* the reasons the environment can cause                                                  *)
 NoUnexpectedDeath == S.ev = "died" => S.why \in {"noundo", "daemon", "genesis", "range"}
